@@ -7,7 +7,7 @@ LEVEL = "exploration"
 TECHNIQUE = "reference-model monitor: listing-splice model vs bytes of the rewritten module"
 RULE = (
     "seeded rewrite scenarios (module of 1-14 blocks over 1-3 sections and "
-    "1-3 intervals each, 4 ISA/format pairs, 1-16 insert/replace/delete/"
+    "1-3 intervals each, 5 ISA/format pairs (x86-64 ELF/PE, IA32 PE, ARM64 ELF, big-endian MIPS32 ELF), 1-16 insert/replace/delete/"
     "delete_function edits at position classes start/mid/before-terminator/"
     "end, registered in shuffled order) are applied by the real "
     "RewritingContext; every original interval's bytes are compared with the "
@@ -32,13 +32,14 @@ RULE = (
 )
 ASSUMPTIONS = [
     "vocabulary byte table (tools/selftest_vocab.py) matches LLVM-MC and capstone",
-    "overlapping blocks are not edit targets; MIPS not driven",
+    "overlapping blocks are not edit targets; big-endian MIPS32 ELF modules (8%) treat a transfer and its delay-slot nop as one item, so no edit lands between them",
     "AssertionError for a modification placed after a deletion that consumed the rest of its block is a documented loud refusal (counted, not judged)",
 ]
 BUDGET = {"quick": (6000, 40), "thorough": (250000, 540)}
 REQUIRED_COUNTERS = ["applies", "bytes_compared", "markers_checked"]
 
-gen_case = rwbase.gen_case
+def gen_case(rng, tier, index):
+    return rwbase.gen_case(rng, tier, index, mips_p=0.08)
 
 
 def run_case(case):
